@@ -381,7 +381,10 @@ M('c11-q0-concrete-range-never-matches', 'C11', 'R8', MT, _MS,
 M('c11-q0-conditional-expression', 'C11', 'R8', MT, _FINAL,
   "        score = (main_matches, sub_matches, exact_match, len(matching), self.quality)\n"
   "        return score if self.quality else self._NOT_MATCHING\n", also=('C04',))
-_RANGES = "    return tuple(_MediaRange.parse(media_range) for media_range in header.split(','))\n"
+_RANGES = """    return tuple(
+        _MediaRange.parse(media_range) for media_range in _split_media_ranges(header)
+    )
+"""
 _MAX = """    most_specific = max(
         media_range.match_score(parsed_media_type)
         for media_range in _parse_media_ranges(header)
@@ -397,12 +400,12 @@ _MAX_DEFAULT = """    most_specific = max(
 """
 M2('c11-q0-ranges-dropped-when-parsing', 'C11', 'R8', [
     {'file': MT, 'old': _RANGES,
-     'new': "    media_ranges = map(_MediaRange.parse, header.split(','))\n"
+     'new': "    media_ranges = map(_MediaRange.parse, _split_media_ranges(header))\n"
             "    return tuple(media_range for media_range in media_ranges if media_range.quality)\n"},
     {'file': MT, 'old': _MAX, 'new': _MAX_DEFAULT % ''}], also=('C04',))
 M2('c11-q0-ranges-filtered-when-parsing', 'C11', 'R8', [
     {'file': MT, 'old': _RANGES,
-     'new': "    return tuple(filter(lambda mr: mr.quality > 0.0, map(_MediaRange.parse, header.split(','))))\n"},
+     'new': "    return tuple(filter(lambda mr: mr.quality > 0.0, map(_MediaRange.parse, _split_media_ranges(header))))\n"},
     {'file': MT, 'old': _MAX, 'new': _MAX_DEFAULT % ''}], also=('C04',))
 M('c11-q0-ranges-skipped-when-scoring', 'C11', 'R8', MT, _MAX, _MAX_DEFAULT % "\n            if media_range.quality", also=('C04',))
 # negative controls verified by hand with --root (must stay silent): `default=_MediaRange._NOT_MATCHING` alone in quality();
@@ -680,3 +683,102 @@ M('c11-setitem-skipped-for-known-instance-flag', 'C11', 'R14', HF,
   "        super().__setitem__(key, value)\n", "        if self._resolve is None:\n            super().__setitem__(key, value)\n")
 # negative controls (exit 0): `if other: self.update(other)`; `for k, v in dict(other).items(): self[k] = v`; `self.data.update(other)` followed by
 # cache_clear(); `UserDict.update(self, other)`; `if not other: return self` in front
+
+# ---- wave 9: R15 one case form on both sides of the matcher (s9-c11-1)
+MT = 'falcon/util/mediatypes.py'
+# the seed: the candidate text is lower-cased before parsing, the range text is not
+M('c11-candidate-lowercased-only', 'C11', 'R15', MT,
+  "        return cls(*_parse_media_type_header(media_type))\n", "        return cls(*_parse_media_type_header(media_type.lower()))\n")
+# variant: the other side, another fold
+M('c11-range-casefolded-only', 'C11', 'R15', MT,
+  "            main_type, subtype, params = _parse_media_type_header(media_range)\n",
+  "            main_type, subtype, params = _parse_media_type_header(media_range.casefold())\n")
+# variant: only the type / subtype pieces of the range are folded (after the shared parser)
+M('c11-range-type-pieces-lowercased', 'C11', 'R15', MT,
+  "            return cls(main_type, subtype, 1.0, params)\n", "            return cls(main_type.lower(), subtype.lower(), 1.0, params)\n")
+# variant: one level up, in quality()
+M('c11-quality-lowercases-candidate', 'C11', 'R15', MT,
+  "    parsed_media_type = _parse_media_type(media_type)\n", "    parsed_media_type = _parse_media_type(media_type.lower())\n")
+# negative controls (exit 0): both parse() lower-case; the fold inside the shared _parse_media_type_header; a local alias of the
+# argument; a redundant `{k.lower(): v ...}` of the parameter NAMES on one side (parse_header lower-cases them already)
+
+# ---- wave 9: R16 the lone-wildcard test sees the stripped member (s9-c11-2)
+PH = "    full_type, params = parse_header(media_type)\n"
+# the seed: members without parameters skip parse_header()
+M('c11-wildcard-fastpath-unstripped', 'C11', 'R16', MT, PH,
+  "    if ';' in media_type:\n        full_type, params = parse_header(media_type)\n    else:\n        full_type, params = media_type, {}\n")
+# variant: stripped on one side only
+M('c11-wildcard-fastpath-lstrip', 'C11', 'R16', MT, PH,
+  "    if ';' in media_type:\n        full_type, params = parse_header(media_type)\n    else:\n        full_type, params = media_type.lstrip(), {}\n")
+# variant: the type is cut off by hand, parse_header() only delivers the parameters
+M('c11-wildcard-own-partition', 'C11', 'R16', MT, PH,
+  "    full_type, _, _rest = media_type.partition(';')\n    params = parse_header(media_type)[1]\n")
+# negative controls (exit 0): the fast path with `.strip()`; `media_type = media_type.strip()` first; the result through a local;
+# `full_type in ('*',)`
+
+# ---- R17 the default table only for `initial is None` (fix 2c28dbf)
+HP = 'falcon/media/handlers.py'
+INIT = """        handlers: Mapping[str, BaseHandler]
+        if initial is not None:
+            handlers = initial
+        else:
+            handlers = {
+                MEDIA_JSON: JSONHandler(),
+                MEDIA_MULTIPART: MultipartFormHandler(),
+                MEDIA_URLENCODED: URLEncodedFormHandler(),
+            }
+"""
+# the defect as it was: the defaults for every falsy `initial` (copy() of an emptied mapping repopulates)
+M('c11-defaults-by-truthiness-or', 'C11', 'R17', HP, INIT, """        handlers: Mapping[str, BaseHandler] = initial or {
+            MEDIA_JSON: JSONHandler(),
+            MEDIA_MULTIPART: MultipartFormHandler(),
+            MEDIA_URLENCODED: URLEncodedFormHandler(),
+        }
+""")
+M('c11-defaults-by-truthiness-if-not', 'C11', 'R17', HP, INIT, """        handlers: Mapping[str, BaseHandler]
+        if not initial:
+            handlers = {
+                MEDIA_JSON: JSONHandler(),
+                MEDIA_MULTIPART: MultipartFormHandler(),
+                MEDIA_URLENCODED: URLEncodedFormHandler(),
+            }
+        else:
+            handlers = initial
+""")
+# variant: copy() hands nothing on (the copy of a customised mapping has the defaults)
+M('c11-copy-without-data', 'C11', 'R17', HP, "        return handlers_cls(self.data)\n", "        return handlers_cls()\n")
+# negative controls (exit 0): `if initial is None: <defaults> else: initial`; `initial if initial is not None else {...}`;
+# `if initial is None: initial = {...}` + UserDict.__init__(self, initial); copy() through dict(self.data)
+
+# ---- R18 header text is cut at , / ; only outside quoted strings (fix a004b1b)
+# the defect as it was: the members by a plain split
+M('c11-ranges-by-plain-split', 'C11', 'R18', MT,
+  "        _MediaRange.parse(media_range) for media_range in _split_media_ranges(header)\n",
+  "        _MediaRange.parse(media_range) for media_range in header.split(',')\n")
+M('c11-splitter-fast-path-wrong-guard', 'C11', 'R18', MT,
+  "    if '\"' not in header:\n        return header.split(',')\n", "    if ';' not in header:\n        return header.split(',')\n")
+M('c11-splitter-cuts-inside-quotes', 'C11', 'R18', MT, "        elif char == ',' and not quoted:\n", "        elif char == ',':\n")
+SPLOOP = """        if escaped:
+            escaped = False
+        elif quoted and char == '\\\\':
+            escaped = True
+        elif char == '"':
+            quoted = not quoted
+        elif char == ',' and not quoted:
+"""
+M('c11-splitter-no-escape-handling', 'C11', 'R18', MT, SPLOOP, """        if char == '"':
+            quoted = not quoted
+        elif char == ',' and not quoted:
+""")
+M('c11-splitter-escaped-quote-toggles', 'C11', 'R18', MT, SPLOOP, """        if char == '"':
+            quoted = not quoted
+            escaped = False
+        elif escaped:
+            escaped = False
+        elif quoted and char == '\\\\':
+            escaped = True
+        elif char == ',' and not quoted:
+""")
+M('c11-splitter-escape-outside-quotes', 'C11', 'R18', MT, "        elif quoted and char == '\\\\':\n", "        elif char == '\\\\':\n")
+# negative controls (exit 0): the arms reordered / nested (`elif quoted: if char == '\\\\'`); `not ('"' in header)`; `for char in header`
+# with an own counter; the fast path removed altogether
